@@ -482,7 +482,8 @@ impl World {
             | Op::PushUciList(_)
             | Op::SetAuto(_)
             | Op::QueryOutcome
-            | Op::Fork
+            | Op::Fork(_)
+            | Op::ParkedStep(_, _, _)
             | Op::Construct(_)
             | Op::EqTwin(_)
             | Op::RebuildMoves
@@ -527,7 +528,8 @@ impl World {
                 Ok(Exec::Done)
             }
             Op::SetAuto(f) => self.op_set_auto(*f),
-            Op::Fork => self.op_fork(),
+            Op::Fork(k) => self.op_fork(*k),
+            Op::ParkedStep(i, k, x) => self.op_parked_step(*i as usize, *k, *x as usize),
             Op::Construct(k) => self.op_construct(*k),
             Op::EqTwin(v) => self.op_eq_twin(*v),
             Op::RebuildMoves => self.op_rebuild_moves(),
@@ -571,7 +573,7 @@ impl World {
                 }
             }
             Op::SetAuto(_) | Op::QueryOutcome => &[C14],
-            Op::RebuildMoves | Op::Fork | Op::EqTwin(_) | Op::Construct(_) => &[C13],
+            Op::RebuildMoves | Op::Fork(_) | Op::ParkedStep(_, _, _) | Op::EqTwin(_) | Op::Construct(_) => &[C13],
             Op::RebuildUci | Op::Read(_) => &[C17],
             Op::S(_, SOp::TryRaw(_)) | Op::S(_, SOp::Functional(_)) => &[C02],
             Op::S(_, _) => &[C04],
@@ -768,7 +770,7 @@ impl World {
             }
             // count events issued by the call above must name the current position
             let log = self.spy.verif_repeat().log.borrow();
-            for ev in &log[self.spy_seen..] {
+            for ev in &log[self.spy_seen.min(log.len())..] {
                 match ev {
                     SpyEv::Count(k) if *k == key => {}
                     other => {
@@ -870,7 +872,7 @@ impl World {
     /// last look (count calls are ignored here).
     fn expect_spy(&mut self, want: &[SpyEv]) -> Result<(), Violation> {
         let log = self.spy.verif_repeat().log.borrow();
-        let got: Vec<SpyEv> = log[self.spy_seen..]
+        let got: Vec<SpyEv> = log[self.spy_seen.min(log.len())..]
             .iter()
             .filter(|e| !matches!(e, SpyEv::Count(_)))
             .cloned()
@@ -1569,17 +1571,92 @@ impl World {
         Ok(Exec::Done)
     }
 
-    fn op_fork(&mut self) -> R {
+    /// Mutates an original that was forked off earlier; its reference summary follows.
+    fn op_parked_step(&mut self, i: usize, kind: u8, x: usize) -> R {
+        if i >= self.parked.len() {
+            return Ok(Exec::Skipped);
+        }
+        match kind % 3 {
+            0 => {
+                if self.parked[i].moves.is_empty() {
+                    return Ok(Exec::Skipped);
+                }
+                let got = self.parked[i].chain.pop();
+                let want = self.parked[i].moves.pop();
+                self.parked[i].outcome = None;
+                if self.on(C13) && (got != want || self.parked[i].chain.outcome().is_some()) {
+                    return Err(self.fail(C13, "refinement", "pop() on a kept original did not return its last move / clear its outcome".into()));
+                }
+            }
+            1 => {
+                if self.parked[i].outcome.is_some() || self.parked[i].moves.len() >= MAX_CHAIN_LEN {
+                    return Ok(Exec::Skipped);
+                }
+                let info = Info::of(self.parked[i].chain.last());
+                if info.legal.is_empty() {
+                    return Ok(Exec::Skipped);
+                }
+                let m = info.legal[x % info.legal.len()];
+                let mv = match crate::full::move_of(&m) {
+                    Some(mv) => mv,
+                    None => return Ok(Exec::Skipped),
+                };
+                match self.parked[i].chain.push(mv) {
+                    Ok(()) => self.parked[i].moves.push(mv),
+                    Err(e) => {
+                        if self.on(C02) {
+                            return Err(self.fail(C02, "legal-refused", format!("legal move {} refused on a kept original: {}", mv, e)));
+                        }
+                        return Ok(Exec::Done);
+                    }
+                }
+            }
+            _ => {
+                let o = if self.parked[i].outcome.is_some() { None } else { Some(Outcome::Draw(DrawReason::Agreement)) };
+                self.parked[i].chain.reset_outcome(o);
+                self.parked[i].outcome = o;
+            }
+        }
+        self.parked[i].last = Full::of(self.parked[i].chain.last());
+        self.stats.hit("op.parked-step");
+        Ok(Exec::Done)
+    }
+
+    fn op_fork(&mut self, kind: u8) -> R {
         if self.parked.len() >= 3 {
             return Ok(Exec::Skipped);
         }
-        let c = self.chain.clone();
+        let (c, s) = if kind % 2 == 0 {
+            (self.chain.clone(), self.spy.clone())
+        } else {
+            // clone_from into objects that already hold another game
+            let other = if self.rc.start == RawBoard::initial() {
+                match crate::refmodel::Pos::from_fen("4k3/8/8/8/8/8/8/4K2R w K - 5 9").and_then(|p| crate::starts::admit(&p)) {
+                    Some(b) => b,
+                    None => return Ok(Exec::Skipped),
+                }
+            } else {
+                crate::starts::initial()
+            };
+            let mut c = MoveChain::new(other.clone());
+            let mut s = BaseMoveChain::<SpyRepeat>::new(other);
+            c.set_outcome(Outcome::Draw(DrawReason::Unknown));
+            c.clone_from(&self.chain);
+            s.clone_from(&self.spy);
+            self.stats.hit("op.fork-clone-from");
+            (c, s)
+        };
         if self.on(C13) && !(c == self.chain && self.chain == c) {
-            return Err(self.fail(C13, "equality", "a clone does not compare equal to its original".into()));
+            return Err(self.fail(
+                C13,
+                "equality",
+                format!("a {} does not compare equal to its original", if kind % 2 == 0 { "clone" } else { "chain overwritten with clone_from" }),
+            ));
         }
         let old = std::mem::replace(&mut self.chain, c);
-        let s = self.spy.clone();
         self.spy = s;
+        self.spy_seen = self.spy.verif_repeat().log.borrow().len();
+        self.invalidate();
         self.parked.push(Parked {
             moves: self.rc.moves.clone(),
             outcome: self.rc.outcome,
@@ -1619,9 +1696,33 @@ impl World {
         let mut start = self.rc.start;
         let mut moves = self.rc.moves.clone();
         let mut outcome = self.rc.outcome;
-        let seed = (v / 10) as usize;
+        let seed = (v / 11) as usize;
         let mut replay_loosely = false;
-        match v % 10 {
+        if v % 11 == 10 {
+            // against an original that was forked off earlier and has been kept alive since
+            if self.parked.is_empty() {
+                return Ok(Exec::Skipped);
+            }
+            let i = seed % self.parked.len();
+            let want = self.parked[i].moves == self.rc.moves && self.parked[i].outcome == self.rc.outcome;
+            let got1 = self.chain == self.parked[i].chain;
+            let got2 = self.parked[i].chain == self.chain;
+            self.stats.hit(if want { "op.eq-original-equal" } else { "op.eq-original-diverged" });
+            if got1 != want || got2 != want {
+                return Err(self.fail(
+                    C13,
+                    "equality",
+                    format!(
+                        "chain == original it was cloned from gives {}/{} but their moves/outcomes are {}",
+                        got1,
+                        got2,
+                        if want { "equal" } else { "not equal" }
+                    ),
+                ));
+            }
+            return Ok(Exec::Done);
+        }
+        match v % 11 {
             0 => {}
             1 => {
                 if moves.pop().is_none() {
@@ -1726,7 +1827,7 @@ impl World {
                     got1,
                     got2,
                     if want { "equal" } else { "not equal" },
-                    v % 10
+                    v % 11
                 ),
             ));
         }
